@@ -26,7 +26,7 @@ ASSUMPTIONS = [
     'refmodel.tokenise (DESIGN A.1) is the specification of the segment stream',
     'file-backed sources opened in text mode: Python folds CR/CRLF to LF before pyx12 sees the text, so for those kinds '
     'the expectation is the tokenisation of the folded text',
-    'after leading blanks the next character is never other whitespace (pyx12 strips all whitespace there; not claimed)',
+    'leading blanks may be followed by a line break (fixed-width records, "SEG~   \\nNEXT"): both are dropped, with the leading-blank error; other whitespace (tabs, form feeds) is never placed there',
     'blank-only pieces may be skipped or yielded as empty segments; the property statement leaves it open',
     'no read errors are injected: the property quantifies over chunking, not over failing streams',
 ]
@@ -174,6 +174,10 @@ def gen_text(rng, B, file_safe):
         if rng.random() < 0.06:
             piece = rng.choice([' ', '  ', '     ']) + piece
             feats.add('leading-blank')
+        elif rng.random() < 0.03 and seg_term not in '\r\n':
+            # records padded to a fixed width: terminator, blanks, then the line break
+            piece = rng.choice([' \n', '   \r\n', ' \n ', '  \r']) + piece
+            feats.add('blank-then-newline')
         parts.append(piece + seg_term)
         parts.append(brk())
     if rng.random() < 0.15:
